@@ -382,7 +382,22 @@ pub fn gen_statement<F: PrimeField>(rng: &mut Rng, curve: Curve, kn: &Knobs) -> 
                 // constraint with the public constant set to the model value
                 let e = gen_expr(rng, &cx, kn.expr_depth);
                 let val: F = g.model.eval(&e);
-                g.push_constrain(Expr::sub(e, Expr::K(S::of(&val))));
+                if val.is_zero() && chance(rng, 1, 2) {
+                    // no constant term at all
+                    g.push_constrain(e);
+                } else if chance(rng, 1, 8) && g.model.m > 0 {
+                    // single committed variable, scaled: c*(V - v) as c*V - c*v
+                    let ci = below(rng, g.model.m);
+                    let t = g.model.table.iter().position(|k| *k == VK::C(ci)).unwrap();
+                    let v: F = g.model.v[ci];
+                    if v.is_zero() {
+                        g.push_constrain(Expr::scale(Expr::V(t), Coef::Lit(gen_scalar(rng))));
+                    } else {
+                        g.push_constrain(Expr::sub(Expr::V(t), Expr::K(S::of(&v))));
+                    }
+                } else {
+                    g.push_constrain(Expr::sub(e, Expr::K(S::of(&val))));
+                }
             }
             11 if can_gate || g.model.pending.is_some() => {
                 // gadget pattern: new wire = value of an expression
